@@ -311,6 +311,22 @@ def explore(base, label, depth, r, msg_types):
                     for o in flatten_results(res):
                         if all(o is not m for m in pool) and all(o is not m for m in new):
                             new.append(o)
+                    # a returned copy must carry its own metadata dictionary, never the one of an existing object
+                    if new:
+                        old_ids = {}
+                        for m in pool + passive:
+                            for q in W.preorder(m):
+                                old_ids.setdefault(id(object.__getattribute__(q, 'metadata')), q)
+                        known = {id(q) for m in pool + passive for q in W.preorder(m)}
+                        for o in new:
+                            for q in W.preorder(o):
+                                if id(q) in known:
+                                    continue
+                                mid = id(object.__getattribute__(q, 'metadata'))
+                                if mid in old_ids and old_ids[mid] is not q:
+                                    problems.append((f'{name.split("=")[0].rstrip("(")} returned an object that shares the metadata dictionary of an existing one',
+                                                     f'{label}: {name} on {type(target).__name__} «{_s(target)}»: the new {type(q).__name__} shares metadata with an existing {type(old_ids[mid]).__name__}'))
+                                    break
                     if new and d + 1 < depth:
                         k2 = key | frozenset(snap(o)[0] for o in new)
                         if k2 != key:
